@@ -40,6 +40,7 @@ CHECKS["C07"] = {
         "'-' is the null token: accepted only by types with a replacement value (value lists on types without one: only if it still decodes as '-')",
         "rejecting a well-formed in-range text is outside C07 (round trips are C06)",
         "errno is 0 when a write starts",
+        "every enumerated definition variant is valid and must load (config-rejected otherwise)",
     ],
     "runs": [{
         "harness": "c07_range", "sources": ["engines/codec/c07_range.cpp"], "variant": "plain", "libset": "core",
@@ -65,7 +66,7 @@ CHECKS["C10"] = {
                   "field; the 6-bit time type TTH is admitted under both readings (bit field / full byte)",
     "technique": "bounded-exhaustive enumeration of field sequences with black-box ownership discovery and metamorphic oracles on the real code",
     "rule": "alphabet: UCH SCH UIN SIN U3N ULG D2C BCD BCD:2 BI0 BI0:3 BI0:7 BI1 BI3:2 BI4:4 BI7 IGN:1 IGN:2 STR:2 HEX:2 "
-            "BDA:3 BTI TTM HDY TTH UCH,10 UIN,-10 EXP EXR EXP,10 (float values with several significant digits: 3.14159, -1234.56, 0.001, 0.25) and STR:* (only as last field of its part); all sequences of length 1..3 x every "
+            "BDA:3 BTI TTM HDY TTH UCH,10 UIN,-10 EXP EXR EXP,10 (+ extended: MIN DTM DAY HDA:3 and a UCH value list, in quick only in sequences of length<=2, thorough <=3; BDA:3/HDA:3 values include a date with undefined day/month) (float values with several significant digits: 3.14159, -1234.56, 0.001, 0.25) and STR:* (only as last field of its part); all sequences of length 1..3 x every "
             "assignment of fields to master/slave part (thorough: + length 4 over UCH UIN D2C BCD BI0 BI0:3 BI3:2 BI7 "
             "IGN:1 STR:2 HDY TTH UCH,10 EXP STR:*); per sequence: all combinations of 3 (length 4: 2) values per field, bit fields "
             "additionally over their full domain for ownership discovery; formats plain, names, JSON, numeric, "
@@ -73,6 +74,11 @@ CHECKS["C10"] = {
             "Field selection (every sequence): getCount(any/master/slave[, name]), getName/getField(index) against the "
             "definition list, and Message::decodeLastData of every single field by name and by message-wide index "
             "(plain, names, JSON) against that field decoded alone.  "
+            "Formats plain, names, JSON, numeric, JSON+value-name and JSON without names (numeric keys = index among the "
+            "non-ignored fields of the definition).  Long family (both tiers): 10 x UCH ; X ; UCH for every type X, master and "
+            "slave (two-digit JSON keys, stream state left by X).  Every sequence starts from the pristine derived-type "
+            "cache; a sequence of the universe that DataField::create refuses is a violation (config-rejected); a single "
+            "field whose value set no longer exercises its type is a violation (single-field).  "
             "Barrier family (both tiers, cheap structural oracles only): one bit field ; 1..2 full-byte fields ; 2 "
             "(thorough 3) bit fields over all 8 sub-byte and 22 full-byte types, master and slave part (518 144 "
             "sequences of length 4-5 in quick).  "
@@ -82,6 +88,8 @@ CHECKS["C10"] = {
         "sequences whose definitions overlap (bit ranges of two bit fields sharing a byte intersect) keep oracles (1)-(4) but not the single-field encoding comparison",
         "for a sequence ending in a variable-length field getLength(part, n) must equal n when n bytes were written",
         "ignored fields are never counted or addressed: counts per part/name, name and field by index and the decode of one field selected by name or by message-wide index (master part first; only judged when no slave field is defined before a master field) refer to exactly that field",
+        "every enumerated definition is valid by the documented format and must load",
+        "in JSON without names the key of a field is its index among the non-ignored fields in definition order (the index getName/getField use)",
         "a full-byte field is a layout barrier: the fields behind it are laid out (length, encoding, decoding) exactly as if they stood alone, whatever precedes it",
         "a bit field directly following a bit field with the same first bit starts a new byte (BI0;BI0 and BI0;BI7;BI0 are two bytes, as the repository's test rows fix); it never shares the byte",
         "TTH (6 bits) may be read as a bit field that shares its byte or as a full-byte field; a sequence fails only if it is inconsistent under both readings",
@@ -112,7 +120,13 @@ CHECKS["C12"] = {
                   "type; load order uses 3x4 (thorough 4x6) mutually independent lines (distinct names and IDs, no "
                   "defaults, no conditions)",
     "technique": "explicit-state BFS over operation histories of the real codec with canonical state hashing to a fixpoint, plus exhaustive permutation of definition lines",
-    "rule": "field kinds plain / value list / constant (=v) / verified constant (==v); constant fields of BTI BDA:3 TTM HEX STR "
+    "rule": "(e) stream state: every registered type (226 variants incl. ,10 / ,-10 / value list) decodes every pattern of a 12-value "
+            "byte alphabet (8 values for 4-byte types; thorough: all patterns of 1- and 2-byte types) in 5 formats (plain, JSON, "
+            "JSON without names with key -1 and key 11, numeric value-name) on a pristine stream; the formatting states "
+            "(flags, precision, fill) left behind are collected and every decode is repeated on a stream preset to each "
+            "of them: result and text must be identical.  (d) 19 definition lines incl. BI0 / BI0:2 / BI0:3 and ranges "
+            "differing only in the step; a valid line refused when loaded alone is a violation (config-rejected).  "
+            "field kinds plain / value list / constant (=v) / verified constant (==v); constant fields of BTI BDA:3 TTM HEX STR "
             "UCH BCD D2C and inside a multi-field definition are decoded with matching data, different data, data "
             "invalid for the type (incl. errors detected after part of the text was produced) and too short data, "
             "and encoded; "
@@ -127,13 +141,14 @@ CHECKS["C12"] = {
         "a pristine process has errno 0, only the built-in types and a default-formatted stream",
         "independent definition lines: distinct circuit/name and ID, templates not referring to each other; defaults (*) and condition lines are order dependent by design and left out",
         "time() is constant during the load-order observations",
+        "the shared stream can be met by a field in exactly the states some other field's decode leaves behind (width is consumed by the next insertion and is not part of them)",
         "definitions with the same base type and divisor but different configured ranges are independent: each behaves (dump incl. min/max/step, encode, decode) as when it is the only definition loaded; a line that is refused on its own takes no part",
     ],
     "runs": [{
         "harness": "c12_history", "sources": ["engines/codec/c12_history.cpp"], "variant": "plain", "libset": "core",
         "quick": {"parts": 16, "deadline": 100,
-                  "bounds": "81 operations to fixpoint (5 760 states); stateless length<=2; 3! x 4! load orders; 14 range/divisor lines in every ordered selection of <=3 (2 366)"},
+                  "bounds": "81 operations to fixpoint (5 760 states); stateless length<=2; 3! x 4! load orders; 19 range/divisor/bit-length/step lines in every ordered selection of <=3 (6 156); stream-state part (e)"},
         "thorough": {"parts": 16, "deadline": 800,
-                     "bounds": "87 operations to fixpoint; stateless length<=3; 4! x 6! load orders; 14 range/divisor lines in every ordered selection of <=4"},
+                     "bounds": "87 operations to fixpoint; stateless length<=3; 4! x 6! load orders; 19 lines in every ordered selection of <=4; stream-state part (e) with all 1/2-byte patterns"},
     }],
 }
